@@ -171,7 +171,8 @@ Definition mig_model (c : World.world * (str + (str * cfgdata)) * store * list b
                             vals[n] = describe_value(t.value)
                     after = dict(has=has, values=vals, ran=[f'{s}#{k}' for _, s, k in pl.RUNLOG],
                                  old_has={n: bool(t.has_data) for n, t in old.tasks.items()},
-                                 old_fullname={n: t.fullname for n, t in old.tasks.items()})
+                                 old_fullname={n: t.fullname for n, t in old.tasks.items()},
+                                 new_path={n: str(t.data_path) for n, t in new.tasks.items()})
                 except CONSTRUCTION_ERRORS as e:
                     after = dict(error=type(e).__name__)
             return dict(src0=src0, steps=steps, old_values=old_values, after=after, param_ok=param_ok)
@@ -225,7 +226,12 @@ Definition mig_model (c : World.world * (str + (str * cfgdata)) * store * list b
                 # carried over for the name it was created under - under its other names the parameter-mode task
                 # is another computation unless the keys coincide
                 alias = a.get('old_fullname', {}).get(n, n) != n
-                if h != a['old_has'][n] and not (alias and a['old_has'][n]):
+                # in parameter mode tasks that are the same computation have one location: a task that had no result
+                # by its config name has one in the target when a task of the same computation had one ("exactly the
+                # tasks that had one" is read per computation)
+                twin = h and not a['old_has'][n] and any(
+                    a['old_has'].get(m) and a.get('new_path', {}).get(m) == a.get('new_path', {}).get(n) for m in a['has'] if m != n)
+                if h != a['old_has'][n] and not (alias and a['old_has'][n]) and not twin:
                     return f'after migration {n} has_data={h} in the target, {a["old_has"][n]} in the source'
             if a['ran']:
                 return f'the parameter-mode chain ran {a["ran"]} for migrated results'
